@@ -88,6 +88,9 @@ def check_cases(chk, cases, replay=False):
     impls_fail = enggen.run_impl(failing)
     models = enggen.run_model(cases, impls, "engine.eval")
     facts = enggen.run_model(cases, impls, "engine.facts")
+    by_entry = {"engine.eval": models, "engine.facts": facts}
+    for k in enggen.retry_unknown_with_sync_table(cases, impls, by_entry):
+        chk.count("model_table_from_sync_checker")
     for c, cf, i, ifail, m, f in zip(cases, failing, impls, impls_fail, models, facts):
         chk.count("fam:" + c.get("fam", "?"))
         d0 = i["decisions"][0]
